@@ -465,6 +465,7 @@ func (p *Prog) Normalise(known map[string]bool, keep func(*ssa.Function) bool) (
 		state[fn] = 1
 		NormaliseBufferEncodes(fn)
 		NormaliseJoinLoops(fn)
+		NormaliseTimeCompares(fn)
 		nLoops, nMaps, nSpec, fwd := 0, 0, 0, false
 		for round := 0; round < 6; round++ {
 			changed := false
